@@ -227,7 +227,11 @@ func (v *Voucher) VerifyCertChainHash() error {
 	}
 
 	cchash := v.Header.Val.CertChainHash
-	digest := cchash.Algorithm.HashFunc().New()
+	cchashFunc, err := hashFuncFor(cchash.Algorithm)
+	if err != nil {
+		return fmt.Errorf("certificate chain hash: %w", err)
+	}
+	digest := cchashFunc.New()
 	for _, cert := range *v.CertChain {
 		if _, err := digest.Write(cert.Raw); err != nil {
 			return fmt.Errorf("error computing hash: %w", err)
